@@ -102,6 +102,9 @@ class BaseTimeSeries(BaseEstimator):
             xyw = self.preprocessing_.transform(X, y, sample_weight)
             X, y = xyw[:2]
             sample_weight = xyw[-1] if sample_weight is not None else None
+        elif hasattr(self, "preprocessing_"):
+            # left by a previous fit with a preprocessing
+            del self.preprocessing_
         return X, y, sample_weight
 
     def _base_fit_predict(self, X, y, sample_weight=None):
